@@ -34,6 +34,9 @@ const TOKENS: &[(&str, &[u8])] = &[
     ("LD IX,nn", &[0xDD, 0x21, 0x34, 0x12]),
     ("RETN alias ED 55", &[0xED, 0x55]),
     ("LD A,R", &[0xED, 0x5F]),
+    // undocumented ED NOPs are ordinary 8-T instructions: an interrupt is accepted right behind them
+    ("ED 00 (NOP)", &[0xED, 0x00]),
+    ("ED FF (NOP)", &[0xED, 0xFF]),
 ];
 
 /// Program memory: assigned cells + writes; everything else is the background function.
@@ -449,7 +452,7 @@ pub fn run(tier: Tier, seed: u64, replay: Option<String>) -> i32 {
     ctx.note("not_judged", json!("NMI on the boundary directly after EI/DI (model and code both hold it off); order of acknowledge/stack cycles inside interrupt entry; values of the hidden Q latch (C01)"));
     ctx.sample(json!({"history": ["EI INT=1 NMI=0", "NOP INT=1 NMI=0", "(handler) NOP"], "expected": "no acceptance at the boundary after EI, acceptance at the next one"}));
     ctx.finish(
-        "BFS over instruction boundaries: at each boundary the environment chooses the instruction token at PC when that memory is still unassigned (22 tokens incl. EI/DI/HALT/RETI/RETN/IM x/prefix chains) and the INT and NMI levels (4 combinations); roots: 4 IFF combinations x 3 interrupt modes x I in {3F,FF} x acknowledge byte; one aligned macro-step on Z80::emulate and on RefZ80 per transition; compared: acceptance or not, entry T-states and accesses, pushed address, PC, IFF1/IFF2, IM, halted, R and all other registers. Dedup on (complete implementation state, reference state, memory).",
+        "BFS over instruction boundaries: at each boundary the environment chooses the instruction token at PC when that memory is still unassigned (24 tokens incl. EI/DI/HALT/RETI/RETN/IM x/prefix chains/undocumented ED NOPs) and the INT and NMI levels (4 combinations); roots: 4 IFF combinations x 3 interrupt modes x I in {3F,FF} x acknowledge byte; one aligned macro-step on Z80::emulate and on RefZ80 per transition; compared: acceptance or not, entry T-states and accesses, pushed address, PC, IFF1/IFF2, IM, halted, R and all other registers. Dedup on (complete implementation state, reference state, memory).",
         true,
         &["RefZ80 validated (see C01)", "NMI is modelled as a request sampled per boundary"],
     )
